@@ -4,7 +4,7 @@
 cd "$(dirname "$0")/.." || exit 2
 /venv/bin/python harness/py2lean.py >/dev/null; (cd lean && lake build 2>&1 | tail -1)
 TIER=${3:-quick}
-PROPS=$(python3 -c "import json;print(' '.join(c['property_id'] for c in json.load(open('MANIFEST.json'))['checks']))")
+PROPS=${SOAK_PROPS:-$(python3 -c "import json;print(' '.join(c['property_id'] for c in json.load(open('MANIFEST.json'))['checks']))")}
 for seed in $(seq $1 $2); do
   for p in $PROPS; do
     out=$(VERIF_SEED=$seed ./check $p --tier $TIER 2>&1); rc=$?
